@@ -105,7 +105,7 @@ let parse_scfg gg tokens =
     sc_counts = (if rev then gg.fg_outgoing else gg.fg_incoming);
     sc_strat = parse_strat (kv tokens "strat" "non");
     sc_interruptible = (kv tokens "int" "0" = "1");
-    sc_drain = true }
+    sc_drain = (try Sys.getenv "FG_STREAM_DRAIN" <> "0" with Not_found -> true) }
 
 let stream_run id pre sc events =
   let st = ref (sinit sc) in
@@ -131,18 +131,28 @@ let stream_run id pre sc events =
   Printf.printf "OBS %s %sZ %s\n" id pre (if is_none !st.panic then "ok" else "X");
   Printf.printf "OBS %s %sT %s\n" id pre (str_trace !st.trace)
 
+let kind_char = function Logic -> "L" | Contains -> "C" | Data -> "D"
+let str_edges es =
+  if es = [] then "-" else
+  String.concat " " (List.map (fun ((a, b), k) ->
+    Printf.sprintf "%d-%d%s" (int_of_nat a) (int_of_nat b) (kind_char k)) es)
+
+let build_graph id ops_s =
+  let gg = build_graph ops_s in
+  Printf.printf "OBS %s G %s\n" id (str_edges gg.fg_edges); gg
+
 let handle kind id _hd rest =
   let rest = List.map String.trim rest in
   match kind, rest with
   | "X", [ops; cfgs; evs] ->
-    let gg = build_graph ops in
+    let gg = build_graph id ops in
     let r = mk_callrun id "" (parse_cfg gg (toks cfgs)) in
     List.iter (call_event r) (toks evs); call_finish r
   | "S", [ops; cfgs; evs] ->
-    let gg = build_graph ops in
+    let gg = build_graph id ops in
     stream_run id "" (parse_scfg gg (toks cfgs)) (toks evs)
   | "H", ops :: runs ->
-    let gg = build_graph ops in
+    let gg = build_graph id ops in
     List.iteri (fun j run ->
       let pre = Printf.sprintf "r%d." j in
       match String.split_on_char ';' run with
@@ -153,7 +163,7 @@ let handle kind id _hd rest =
          | _ -> failwith "bad run kind")
       | _ -> failwith "bad run") runs
   | "Y", [ops; ca; cb; evs] ->
-    let gg = build_graph ops in
+    let gg = build_graph id ops in
     let ra = mk_callrun id "A." (parse_cfg gg (toks ca)) and rb = mk_callrun id "B." (parse_cfg gg (toks cb)) in
     List.iter (fun t ->
       if String.length t > 2 && String.sub t 0 2 = "A:" then call_event ra (String.sub t 2 (String.length t - 2))
